@@ -289,7 +289,9 @@ func ParsePipe(match string) ([]*PipeSelector, error) {
 func ParseSelector(selector string) ([]any, error) {
 	functions := strings.SplitN(selector, "=>", 2)
 	slice := make([]any, 0)
-	if len(functions) == 2 {
+	// only a leading bare name is a top-level function; the `=>` of an arrow
+	// function inside brackets, as in data[keep=>0:1], belongs to that step
+	if len(functions) == 2 && !strings.ContainsAny(functions[0], "[{'") {
 		selector = functions[1]
 		slice = append(slice, TopLevelFunctionSelector(functions[0]))
 	}
